@@ -43,7 +43,7 @@ func init() {
 func init() {
 	registerProperty(&Property{
 		ID:          "C06",
-		Rules:       []string{"escape", "fragment-disjoint", "map-order", "total-order", "encode-readonly", "name-verbatim"},
+		Rules:       []string{"escape", "fragment-disjoint", "map-order", "total-order", "encode-readonly", "name-verbatim", "ok-before-compare"},
 		Explanation: "Decides the structural conditions of well-formed, collision-free, deterministic encoding: in every function reachable from a MarshalJSON method, whatever is written to an output buffer or returned as bytes is a constant, an encoder result (json.Marshal, MarshalJSON, strconv quoting, ConcatJSON of such) or a constant package table (escape); fragments concatenated into one object have pairwise disjoint tagged names, no tagged name enters the x- / path key space, user-keyed maps pass a constant-prefix filter, and Schema.ExtraProps is only filled after every tagged name, $ref, $schema and x- key has been removed (fragment-disjoint); a range over a map only feeds another map or a slice sorted before use (map-order); sort comparators break ties (total-order). name-verbatim: encoders store map keys of the model into the output under the key itself, not a rewriting of it.",
 		NotCovered:  "validity of free-form payload encoding (encoding/json), byte-identity across runs as an observed fact, duplicate keys arising from case-insensitive matching in encoding/json's decoder",
 	})
@@ -67,7 +67,7 @@ func init() {
 func init() {
 	registerProperty(&Property{
 		ID:          "C03",
-		Rules:       []string{"visit", "containers", "ref-clear", "ref-store", "opts-copy-complete", "cut-check", "location-prefix", "denorm-final"},
+		Rules:       []string{"visit", "containers", "ref-clear", "ref-store", "opts-copy-complete", "cut-check", "location-prefix", "denorm-final", "origin-compare"},
 		Explanation: "Decides the per-site disciplines 'only cycle cut-points remain' rests on. visit: every access path from Schema to a nested Schema (enumerated from the types, so a new schema-bearing field adds an obligation) is passed to the schema expander and the dereferenced result stored back at the same path. containers: every holder of refable elements (Swagger, PathItem, Operation, Parameter, Response; positions enumerated from the types) is handed to the matching expander, and by-value copies are written back. ref-clear (go/cfg must-analysis): every path from a completed dereference to a successful return stores the zero Ref into the holder. ref-store: every other store into a schema's Ref is a rewrite of a normalised reference against the root context (basePath, rootID) - or the normalised reference itself under AbsoluteCircularRef - and is control-dependent on isCircular having returned true, on skip-schemas mode, or on the empty-root-ref guard. location-prefix: a location (URL text, URL path) is used as a string prefix of another only where it is known to be empty or slash-terminated, so the relative $ref kept at a cut-point is cut at a segment boundary.",
 		NotCovered:  "that a kept $ref actually resolves to a node on a cycle; that denormalizeRef/rebase compute the right relative form; determinism of the output beyond C06's rules",
 	})
@@ -94,13 +94,13 @@ func init() {
 func init() {
 	registerProperty(&Property{
 		ID:          "C02",
-		Rules:       []string{"thread-args", "switch-on-follow", "ref-store", "opts-copy-complete", "loader-shares-state", "entry-wiring", "location-prefix", "chain-ref-absolute", "denorm-final"},
+		Rules:       []string{"thread-args", "switch-on-follow", "ref-store", "opts-copy-complete", "loader-shares-state", "entry-wiring", "location-prefix", "chain-ref-absolute", "denorm-final", "origin-compare"},
 		Explanation: "Bisimilarity is a relation between run-time graphs and is not decided. Decided are the threading disciplines behind 'a $ref is always interpreted relative to the document that textually contains it': at every call between expander family members (found by role) the base-path argument derives only from the caller's own base path, from id re-scoping (setSchemaID), from updateBasePath for the resolver just created, or from RemoteURI() of the normalised ref just followed, and the loader argument only from the caller's loader or from transitiveResolver(current base, the $ref being followed) (thread-args); after a followed $ref, whatever is expanded next receives the transitive resolver and the updated base (switch-on-follow); kept refs are rewritten against the root frame (ref-store). location-prefix: 'same document' and 'below this folder' are never decided by a plain string prefix of one location in another (spec.json vs spec.json2); two genuine defects of that kind were found and repaired.",
 		NotCovered:  "that normalizeURI, transitiveResolver's prefix test or resolveRef's root selection compute the right document (values) - in particular the wrong-document resolutions on multi-hop chains the property text mentions are value-level and invisible to these rules; map iteration order effects",
 	})
 	registerProperty(&Property{
 		ID:          "C09",
-		Rules:       []string{"skip-shape", "containers", "ref-clear", "ref-store", "opts-copy-complete", "switch-on-follow", "thread-args", "entry-wiring", "location-prefix", "denorm-final"},
+		Rules:       []string{"skip-shape", "containers", "ref-clear", "ref-store", "opts-copy-complete", "switch-on-follow", "thread-args", "entry-wiring", "location-prefix", "denorm-final", "origin-compare"},
 		Explanation: "Decides the shape of skip-schemas mode: in the schema expander the statements executed under SkipSchemas call nothing that resolves references, change nothing but the schema's Ref and return the target itself; that Ref store is a root-frame rewrite of a normalised reference (ref-store). In ExpandSpec only the definitions loop is control-dependent on !SkipSchemas; parameters, responses and path items are expanded unconditionally, completely dereferenced and cleared (containers, ref-clear), and the schema below a dereferenced parameter/response is still handed to the schema expander so nested refs are rebased. location-prefix: the folder a kept $ref is rebased against is slash-terminated where it is trimmed.",
 		NotCovered:  "that the rebased string designates the same target; that a later full expansion gives the same outcome as a direct one",
 	})
@@ -154,7 +154,7 @@ func init() {
 func init() {
 	registerProperty(&Property{
 		ID:          "C07",
-		Rules:       []string{"codec-no-panic", "bounded-recursion", "encoder-constants-decodable", "total-order", "map-order", "err-before-use", "absence-is-nil"},
+		Rules:       []string{"codec-no-panic", "bounded-recursion", "encoder-constants-decodable", "total-order", "map-order", "err-before-use", "absence-is-nil", "ok-before-compare"},
 		Explanation: "Decides the totality half structurally. codec-no-panic: in every function reachable from any UnmarshalJSON, MarshalJSON, GobEncode, GobDecode, fromMap or JSONLookup method (static callees plus sort.Interface methods) there is no panic-capable construct: no Must*/panic call, no single-result type assertion outside a type switch, every index on the input bytes is dominated by a length guard that implies it is in range, every other index/slice expression is bounded by its loop, and every store into a field map is dominated by the nil-check-and-make idiom or targets a freshly made map. bounded-recursion: no codec method lies on a static call cycle, and none hands its own whole input (or receiver) back to encoding/json at a type whose method set resolves to that very method; recursion therefore only goes through encoding/json on strictly nested values, bounded by its nesting limit. err-before-use: inside the codecs no pointer result is dereferenced before its error is tested. absence-is-nil: an early return that leaves the receiver untouched is taken on nil tests only, so a present \"\" or 0 is not normalised away differently on the second pass.",
 		NotCovered:  "the fixed-point law decode.encode.decode.encode = decode.encode (value-level; e.g. \"items\": [] -> null is not detected); panics or hangs inside dependencies; stack depth of encoding/json itself",
 	})
